@@ -10,6 +10,7 @@ import (
 	"testing"
 
 	"github.com/RoaringBitmap/roaring/v2"
+	bsi32 "github.com/RoaringBitmap/roaring/v2/BitSliceIndexing"
 	"github.com/RoaringBitmap/roaring/v2/roaring64"
 )
 
@@ -574,5 +575,42 @@ func TestD27_CloneCopyOnWriteContainers64Detaches(t *testing.T) {
 	}
 	if !z.Equals(orig) {
 		t.Fatalf("the bitmap still reads the input buffer after CloneCopyOnWriteContainers: cardinality %d, want %d", z.GetCardinality(), orig.GetCardinality())
+	}
+}
+
+// #28 C19: the 32-bit BSI.ParOr must not depend on the order of operands of different widths.
+func TestD28_BSI32ParOrWideBeforeNarrow(t *testing.T) {
+	narrow := bsi32.NewDefaultBSI()
+	narrow.SetValue(1, 1)
+	wide := bsi32.NewDefaultBSI()
+	wide.SetValue(2, 1000)
+	b := bsi32.NewDefaultBSI()
+	b.ParOr(0, wide, narrow)
+	if v, ok := b.GetValue(2); !ok || v != 1000 {
+		t.Fatalf("ParOr(0, wide, narrow): column 2 holds %d,%v, want 1000", v, ok)
+	}
+}
+
+// #29 C19: the 64-bit BSI.ParOr with operands of different widths: no panic, negative values keep their sign.
+func TestD29_BSI64ParOrUnequalWidths(t *testing.T) {
+	narrow := roaring64.NewDefaultBSI()
+	narrow.SetValue(1, -1)
+	wide := roaring64.NewDefaultBSI()
+	wide.SetValue(2, 1000)
+	b := roaring64.NewDefaultBSI()
+	b.RunOptimize()
+	func() {
+		defer func() {
+			if r := recover(); r != nil {
+				t.Fatalf("ParOr panicked: %v", r)
+			}
+		}()
+		b.ParOr(0, narrow, wide)
+	}()
+	if v, ok := b.GetValue(1); !ok || v != -1 {
+		t.Fatalf("column 1 holds %d,%v, want -1", v, ok)
+	}
+	if v, ok := b.GetValue(2); !ok || v != 1000 {
+		t.Fatalf("column 2 holds %d,%v, want 1000", v, ok)
 	}
 }
